@@ -153,9 +153,36 @@ void run()
     gsim::enable_fault(gsim::F_STALE_READ, gsim::knob("stale", 0, 1) * 200);
     // (the unchanged Latch has no timed wait: this matters only for rewrites that introduce one)
     gsim::enable_fault(gsim::F_TIME_JUMP, gsim::knob("time_jump", 0, 2) * 30);
+    // A second, independent latch that is used (and blocked on) BEFORE the latch under test:
+    // latches share nothing, whatever one of them did earlier in the same process.
+    gmlc::concurrency::Latch* other = nullptr;
+    int other_waiter = -1;
+    int second = gsim::knob("second_latch", 0, 2);
+    if (second) {
+        other = new gmlc::concurrency::Latch(1);
+        other_waiter = gsim::spawn(
+            [](void* p) {
+                gsim::ev_set(40);
+                static_cast<gmlc::concurrency::Latch*>(p)->wait();
+            },
+            other);
+        gsim::ev_wait(40);
+        for (int y = 0; y < 6; y++) gsim::yield();  // let it block
+        if (second == 1) {
+            other->arrive();  // open before the latch under test is used
+            gsim::join(other_waiter);
+            other_waiter = -1;
+        }
+        gsim::probe("latch.second_latch_used_first");
+    }
     st.latch = new gmlc::concurrency::Latch(st.count);
     wl::run_program(body);
+    if (other_waiter >= 0) {
+        other->arrive();  // (second == 2: it stayed closed while the latch under test was used)
+        gsim::join(other_waiter);
+    }
     delete st.latch;
+    delete other;
     S = nullptr;
 }
 }  // namespace
